@@ -64,10 +64,14 @@ def run(d, tier="quick"):
     r = sh("git -C %s apply %s/patch.diff" % (REPO, d))
     assert r.returncode == 0, r.stdout
     t0 = time.time()
+    ev = os.path.join(ROOT, "evidence", "%s.json" % pid)
+    saved = open(ev).read() if os.path.exists(ev) else None
     try:
         r = sh("./check %s --tier %s" % (pid, tier), cwd=ROOT, timeout=3600)
     finally:
         sh("git -C %s checkout -- ." % REPO)
+        if saved is not None:  # evidence files describe runs on the unchanged tree only
+            open(ev, "w").write(saved)
     viol = [l for l in r.stdout.splitlines() if l.startswith("VIOLATION")]
     caught = r.returncode == 1 and bool(viol)
     print("%-28s %s rc=%d %.0fs %s" % (os.path.basename(d), "CAUGHT" if caught else "MISSED", r.returncode,
